@@ -11,13 +11,11 @@ Local Notation concat := List.concat.
 
 (* ------------------------------------------------------------------ skeleton predicates *)
 
-Lemma str_list_eqb_eq (a b : list string) : list_eqb String.eqb a b = true <-> a = b.
-Proof. apply list_eqb_eq. apply String.eqb_eq. Qed.
+Lemma str_list_eqb_eq (a b : list N) : list_eqb N.eqb a b = true <-> a = b.
+Proof. apply list_eqb_eq. apply N.eqb_eq. Qed.
 
 Lemma one_of_In allowed l : one_of allowed l = true -> In l allowed.
 Proof. unfold one_of. intros H. apply (memb_In _ str_list_eqb_eq) in H. exact H. Qed.
-
-Definition valid_sched (sched : schedule) : Prop := forall ls, Interleave ls (sched ls).
 
 Lemma all_nil_concat {A} (ls : list (list A)) : Forall (fun l => l = []) ls -> List.concat ls = [].
 Proof. induction 1; cbn; subst; auto. Qed.
@@ -439,29 +437,43 @@ Section WithSkels.
         destruct (save_refs (apply (SetRefLog r c false) s) upd) as [ws ok]; cbn in *. split; auto.
   Qed.
 
+  Lemma fetch_objects_spec s objs upd :
+    safe_seq s (fst (fetch_objects sk dv s objs upd)) /\
+    Forall is_put (fst (fetch_objects sk dv s objs upd)) /\
+    (snd (fetch_objects sk dv s objs upd) = true ->
+       forall u, In u upd -> In (snd (fst u)) (commits (apply_all (fst (fetch_objects sk dv s objs upd)) s))).
+  Proof.
+    unfold fetch_objects.
+    destruct (forallb (fun u => stored (snd (fst u)) s) upd) eqn:E.
+    - cbn. split; [exact I|]. split; [constructor|]. intros _ u Hu.
+      rewrite forallb_forall in E. apply (memb_In cid_eqb cid_eqb_eq). apply E; auto.
+    - destruct (receive_safe objs s) as [Hs Hp].
+      destruct (receive sk dv s objs) as [wr okr]; cbn in *. split; auto. split; auto.
+      intros H u Hu. apply andb_true_iff in H. destruct H as [_ H]. rewrite forallb_forall in H.
+      apply (memb_In cid_eqb cid_eqb_eq). apply H; auto.
+  Qed.
+
   Lemma fetch_writes_eq s objs upd :
     fetch_writes sk dv s objs upd =
-    (let '(wr, okr) := receive sk dv s objs in
-     if okr && forallb (fun u => stored (snd (fst u)) (apply_all wr s)) upd
-     then let '(wsr, oks) := save_refs (apply_all wr s) upd in (wr ++ wsr, oks)
-     else (wr, false)).
+    (let '(wo, oko) := fetch_objects sk dv s objs upd in
+     if oko then let '(wsr, oks) := save_refs (apply_all wo s) upd in (wo ++ wsr, oks)
+     else (wo, false)).
   Proof.
     pose proof (one_of_In _ _ Hfetch) as H. unfold fetch_writes.
     destruct H as [H | []]; rewrite <- H. cbn.
-    destruct (receive sk dv s objs) as [wr okr]. cbn.
-    destruct (okr && forallb (fun u => stored (snd (fst u)) (apply_all wr s)) upd); [|reflexivity].
-    destruct (save_refs (apply_all wr s) upd) as [wsr oks]. reflexivity.
+    destruct (fetch_objects sk dv s objs upd) as [wo oko]. cbn.
+    destruct oko; [|reflexivity].
+    destruct (save_refs (apply_all wo s) upd) as [wsr oks]. reflexivity.
   Qed.
 
   Lemma fetch_safe s objs upd : safe_seq s (fst (fetch_writes sk dv s objs upd)).
   Proof.
-    rewrite fetch_writes_eq. destruct (receive_safe objs s) as [Hs Hp].
-    destruct (receive sk dv s objs) as [wr okr]; cbn in *.
-    destruct (okr && forallb (fun u => stored (snd (fst u)) (apply_all wr s)) upd) eqn:E; [|exact Hs].
-    apply andb_true_iff in E. destruct E as [_ E]. rewrite forallb_forall in E.
-    pose proof (save_refs_safe upd (apply_all wr s)) as Hsr.
-    destruct (save_refs (apply_all wr s) upd) as [wsr oks]; cbn in *.
-    apply safe_seq_app; auto. apply Hsr. intros u Hu. apply (memb_In cid_eqb cid_eqb_eq). apply E; auto.
+    rewrite fetch_writes_eq. destruct (fetch_objects_spec s objs upd) as (Hs & Hp & Hst).
+    destruct (fetch_objects sk dv s objs upd) as [wo oko]; cbn in *.
+    destruct oko; [|exact Hs].
+    pose proof (save_refs_safe upd (apply_all wo s)) as Hsr.
+    destruct (save_refs (apply_all wo s) upd) as [wsr oks]; cbn in *.
+    apply safe_seq_app; auto.
   Qed.
 
   (* ---------------------------------------------------------------- all non-prune operations *)
@@ -497,6 +509,16 @@ Section WithSkels.
     inversion E; subst. apply get_ref_In in G. eapply Hh; eauto.
   Qed.
 
+  Lemma ff_safe s r h o1 : Inv s -> head_of r s = Some h ->
+    In o1 (commits s) -> In (c_table o1) (tables s) -> safe_seq s (fst (ff_writes s r h o1)).
+  Proof.
+    intros (Hc & Hr & Htu & Hh) E Ho1 Ho2. unfold ff_writes.
+    destruct (cid_eqb h o1); [exact I|].
+    destruct (is_anc h o1); cbn [fst]; [cbn; repeat split; auto|].
+    destruct (is_anc o1 h); cbn [fst]; [|exact I].
+    cbn. repeat split; auto. { eapply head_stored; eauto. } { intros F. eapply flag_of_true; eauto. }
+  Qed.
+
   Theorem op_safe s o : Inv s -> op_ok s o -> safe_seq s (fst (op_writes sk dv sched s o)).
   Proof.
     intros Hi Hok. pose proof Hi as (Hc & Hr & Htu & Hh).
@@ -505,24 +527,27 @@ Section WithSkels.
     - apply commit_with_table_safe; auto.
     - cbn. repeat split; auto.
     - destruct (head_of r s) as [h|] eqn:E; [|exact I].
-      destruct (others_ok s others) eqn:Eo; [|exact I]. cbn [fst].
-      apply merge_commit_safe. cbn. intros p [<- | Hp].
-      + eapply head_stored; eauto.
-      + apply (others_ok_spec _ _ Eo p Hp).
+      destruct (others_ok s others) eqn:Eo; [|exact I].
+      destruct (diverged h others) eqn:Ed; cbn [fst].
+      + apply merge_commit_safe. cbn. intros p [<- | Hp].
+        * eapply head_stored; eauto.
+        * apply (others_ok_spec _ _ Eo p Hp).
+      + destruct others as [|o1 [|o2 l]]; try exact I.
+        destruct (others_ok_spec _ _ Eo o1 (or_introl eq_refl)) as [Ho1 Ho2].
+        apply (ff_safe s r h o1); auto.
     - destruct (head_of r s) as [h|] eqn:E; [|exact I].
       destruct (others_ok s [other]) eqn:Eo; [|exact I].
       destruct (others_ok_spec _ _ Eo other (or_introl eq_refl)) as [Ho1 Ho2].
       assert (Hpar : forall p, In p [h; other] -> In p (commits s)).
       { intros p [<- | [<- | []]]; auto. eapply head_stored; eauto. }
+      destruct (cid_eqb h other); [exact I|].
       destruct (is_anc h other); cbn [fst]; [rewrite create_merge_writes_eq; apply commit_ref_safe; auto|].
       destruct (is_anc other h); cbn [fst]; [|exact I].
       rewrite create_merge_writes_eq; apply commit_ref_safe; auto. cbn. apply Hok; auto.
     - destruct (head_of r s) as [h|] eqn:E; [|exact I].
       destruct (others_ok s [other]) eqn:Eo; [|exact I].
       destruct (others_ok_spec _ _ Eo other (or_introl eq_refl)) as [Ho1 Ho2].
-      destruct (is_anc h other); cbn [fst]; [cbn; repeat split; auto|].
-      destruct (is_anc other h); cbn [fst]; [|exact I].
-      cbn. repeat split; auto. { eapply head_stored; eauto. } { intros F. eapply flag_of_true; eauto. }
+      apply (ff_safe s r h other); auto.
     - apply fetch_safe.
     - contradiction.
   Qed.
@@ -625,7 +650,8 @@ Section Rerun.
     commit_skel_ok (sk_commit sk) = true /\ commit_with_table_skel_ok (sk_commit_with_table sk) = true /\
     merge_result_skel_ok (sk_merge_result sk) = true /\ create_merge_skel_ok (sk_create_merge sk) = true.
   Proof.
-    unfold skels_ok, recv_skel_ok in Hok. repeat (apply andb_true_iff in Hok; destruct Hok as [Hok ?]).
+    pose proof Hok as H. unfold skels_ok, recv_skel_ok in H.
+    repeat match goal with H : _ && _ = true |- _ => apply andb_true_iff in H; destruct H end.
     repeat split; assumption.
   Qed.
 
@@ -665,9 +691,10 @@ Section Rerun.
     Forall is_obj objs2 -> shape_of c1 = shape_of c2 ->
     obs_eq (apply_all (objs2 ++ [SetRefLog r c2 true]) (crash n ws1 s)) (apply_all ws1 s).
   Proof.
-    intros ws1 H1 Hn H2 Hs. destruct (crash_before_tail objs1 (SetRefLog r c1 true) n s H1 Hn) as (Er&_&_).
+    intros ws1 H1 Hn H2 Hs. subst ws1.
+    destruct (crash_before_tail objs1 (SetRefLog r c1 true) n s H1 Hn) as (Er&_&_).
     eapply obs_eq_same_tail with (R := refs s); [| |symmetry; exact Hs].
-    - rewrite refs_after_tail; auto. fold ws1. rewrite Er. reflexivity.
+    - rewrite refs_after_tail; auto. rewrite Er. reflexivity.
     - apply refs_after_tail; auto.
   Qed.
 
@@ -736,6 +763,7 @@ Section Rerun.
   (** merge commit *)
   Theorem merge_commit_rerun sched1 sched2 s r others t n1 n2 n :
     valid_sched sched1 -> valid_sched sched2 -> Inv s ->
+    (forall h, head_of r s = Some h -> diverged h others = true) ->
     snd (op_writes sk dv sched1 s (OMergeCommit r others t n1)) = true ->
     let ws1 := fst (op_writes sk dv sched1 s (OMergeCommit r others t n1)) in
     (n < length ws1)%nat ->
@@ -744,14 +772,15 @@ Section Rerun.
     Inv (run_op sk dv sched2 cs (OMergeCommit r others t n2)) /\
     obs_eq (run_op sk dv sched2 cs (OMergeCommit r others t n2)) (apply_all ws1 s).
   Proof.
-    intros Hv1 Hv2 Hi Hok1 ws1 Hn cs.
+    intros Hv1 Hv2 Hi Hdiv Hok1 ws1 Hn cs.
     assert (Hinv_cs : Inv cs) by (apply nonprune_prefix_consistent; auto; exact I).
     unfold run_op, cs, ws1 in *. cbn [op_writes] in *.
     destruct (head_of r s) as [h|] eqn:Eh; [|cbn in Hok1; discriminate].
     destruct (others_ok s others) eqn:Eo; [|cbn in Hok1; discriminate].
+    rewrite (Hdiv h eq_refl) in *.
     cbn [fst snd] in *.
-    rewrite (merge_commit_writes_eq sk sched1 Hmerge Hcreate) in *.
-    set (c1 := Cid t (h :: others) n1) in *. cbn [c_table] in *.
+    rewrite (merge_commit_writes_eq sk sched1 Hmerge Hcreate) in *. cbn [c_table] in *.
+    set (c1 := Cid t (h :: others) n1) in *.
     set (O1 := ingest_writes sk sched1 t false ++ [PutProf t] ++ [PutCommit c1]).
     assert (E1 : ingest_writes sk sched1 t false ++ [PutProf t] ++ [PutCommit c1; SetRefLog r c1 true]
                  = O1 ++ [SetRefLog r c1 true]).
@@ -764,18 +793,60 @@ Section Rerun.
     destruct (crash_before_tail O1 (SetRefLog r c1 true) n s HO1 Hn) as (Er&_&_).
     pose proof (crash_objs_le O1 (SetRefLog r c1 true) n s HP1 HO1 Hn) as Hle.
     rewrite (head_of_refs_eq r _ s Er), Eh.
-    rewrite (objs_le_others_ok _ _ _ Hle Eo). cbn [fst snd].
+    rewrite (objs_le_others_ok _ _ _ Hle Eo), (Hdiv h eq_refl). cbn [fst snd].
     split; [reflexivity|]. split.
     - pose proof (nonprune_final_inv sched2 _ (OMergeCommit r others t n2) Hv2 Hinv_cs I) as F.
       unfold run_op in F. cbn [op_writes] in F.
-      rewrite (head_of_refs_eq r _ s Er), Eh, (objs_le_others_ok _ _ _ Hle Eo) in F. exact F.
-    - rewrite (merge_commit_writes_eq sk sched2 Hmerge Hcreate).
-      set (c2 := Cid t (h :: others) n2). cbn [c_table].
+      rewrite (head_of_refs_eq r _ s Er), Eh, (objs_le_others_ok _ _ _ Hle Eo), (Hdiv h eq_refl) in F. exact F.
+    - rewrite (merge_commit_writes_eq sk sched2 Hmerge Hcreate). cbn [c_table].
+      set (c2 := Cid t (h :: others) n2).
       replace (ingest_writes sk sched2 t false ++ [PutProf t] ++ [PutCommit c2; SetRefLog r c2 true])
         with ((ingest_writes sk sched2 t false ++ [PutProf t] ++ [PutCommit c2]) ++ [SetRefLog r c2 true])
         by (rewrite <- !app_assoc; reflexivity).
       apply tail_rerun; auto.
       apply Forall_app; split; [apply ingest_is_obj; auto | repeat constructor].
+  Qed.
+
+  (** merge with ff=never (createMergeCommit over an existing table) *)
+  Theorem merge_noff_rerun sched s r other n1 n2 n :
+    Inv s ->
+    snd (op_writes sk dv sched s (OMergeNoFF r other n1)) = true ->
+    let ws1 := fst (op_writes sk dv sched s (OMergeNoFF r other n1)) in
+    (n < length ws1)%nat ->
+    let cs := crash n ws1 s in
+    snd (op_writes sk dv sched cs (OMergeNoFF r other n2)) = true /\
+    obs_eq (run_op sk dv sched cs (OMergeNoFF r other n2)) (apply_all ws1 s).
+  Proof.
+    intros Hi Hok1 ws1 Hn cs.
+    unfold run_op, cs, ws1 in *. cbn [op_writes] in *.
+    destruct (head_of r s) as [h|] eqn:Eh; [|cbn in Hok1; discriminate].
+    destruct (others_ok s [other]) eqn:Eo; [|cbn in Hok1; discriminate].
+    destruct (cid_eqb h other) eqn:Ec; [cbn in Hn; lia|].
+    assert (Hgen : forall t, 
+      let c1 := Cid t [h; other] n1 in
+      (n < length (create_merge_writes sk r c1))%nat ->
+      refs (crash n (create_merge_writes sk r c1) s) = refs s /\
+      objs_le s (crash n (create_merge_writes sk r c1) s) /\
+      forall c2, shape_of c1 = shape_of c2 ->
+        obs_eq (apply_all (create_merge_writes sk r c2) (crash n (create_merge_writes sk r c1) s))
+               (apply_all (create_merge_writes sk r c1) s)).
+    { intros t c1 Hn'. rewrite !(create_merge_writes_eq sk Hcreate) in *.
+      change [PutCommit c1; SetRefLog r c1 true] with ([PutCommit c1] ++ [SetRefLog r c1 true]) in *.
+      assert (HO1 : Forall is_obj [PutCommit c1]) by repeat constructor.
+      assert (HP1 : Forall is_put [PutCommit c1]) by repeat constructor.
+      destruct (crash_before_tail [PutCommit c1] (SetRefLog r c1 true) n s HO1 Hn') as (Er&_&_).
+      split; auto. split; [apply crash_objs_le; auto|].
+      intros c2 Hs. rewrite (create_merge_writes_eq sk Hcreate).
+      change [PutCommit c2; SetRefLog r c2 true] with ([PutCommit c2] ++ [SetRefLog r c2 true]).
+      apply tail_rerun; auto. repeat constructor. }
+    destruct (is_anc h other) eqn:Ea; cbn [fst snd] in *.
+    - destruct (Hgen (c_table other) Hn) as (Er & Hle & Hobs).
+      rewrite (head_of_refs_eq r _ s Er), Eh, (objs_le_others_ok _ _ _ Hle Eo), Ec, Ea. cbn [fst snd].
+      split; [reflexivity|]. apply Hobs. reflexivity.
+    - destruct (is_anc other h) eqn:Eb; cbn [fst snd] in *; [|discriminate].
+      destruct (Hgen (c_table h) Hn) as (Er & Hle & Hobs).
+      rewrite (head_of_refs_eq r _ s Er), Eh, (objs_le_others_ok _ _ _ Hle Eo), Ec, Ea, Eb. cbn [fst snd].
+      split; [reflexivity|]. apply Hobs. reflexivity.
   Qed.
 
 End Rerun.
